@@ -337,7 +337,8 @@ IsSubstrOf(p, t) == \E i \in 0..(Len(t) - Len(p)) : SubSeq(t, i + 1, i + Len(p))
 
 (* to_number.md: "If string, returns the parsed number" / "type error if the *)
 (* string cannot be parsed as a number".  Decided: the JSON number forms     *)
-(* -?(0|[1-9][0-9]*)(.[0-9]+)? parse to their value; a string containing any *)
+(* without exponent (optional minus, digits without a superfluous leading    *)
+(* zero, optionally a point and digits) have their value; a string with any  *)
 (* character that occurs in no number notation (or the empty string) cannot  *)
 (* be parsed; anything else built from number characters (" 1", "+1", "1e1", *)
 (* "01", "1.") depends on a notation the page does not name: don't care.     *)
@@ -504,7 +505,7 @@ FVal(e, c, r) ==
          LET a == [i \in 1..Len(e[3]) |-> FVal(e[3][i], c, r)] IN
          IF \E i \in 1..Len(a) : a[i] = DCV THEN DCV
          ELSE IF e[2] = "contains" /\ IsArrLike(a[1]) /\ e[3][2][1] = "q" /\ IsSingular(e[3][2][3]) /\ a[2] = JNull
-                 /\ NodesOf(EvalSegs(e[3][2][3], <<IF e[3][2][2] = "cur" THEN c ELSE MkNode(<<>>, r)>>, r)) = <<>> THEN DCV
+                 /\ ValuesOf(EvalSegs(e[3][2][3], <<IF e[3][2][2] = "cur" THEN c ELSE MkNode(<<>>, r)>>, r)) = <<>> THEN DCV
          ELSE LET v == FnApply(e[2], a) IN IF v = ERRV THEN JNull ELSE v
     [] e[1] = "fq" ->
          (* segments applied to the value of a function call ([doc] tokenize.md tokenize(@.author,'\\s+')[-1], [data] *)
